@@ -93,6 +93,9 @@ SEEDS = {
  "S32-c13-collapsed-edge-skip-dead": dict(prop="C13", origin="independent sub-agent",
     change="fill_queue: the skip of collapsed edges is rewritten to test `e1.cmp(&e2) == Equal`, which Ord for SweepEvent never returns",
     needs="an operand ring with a repeated consecutive vertex (mid-ring, doubled closing point, or in a hole)"),
+ "S33-c01-difference-subject-transition-mirror": dict(prop="C01", origin="independent sub-agent",
+    change="determine_result_transition: for difference a subject edge gets the negated clipping formula instead of `this_in && !that_in`",
+    needs="difference whose result has vertically stacked pieces (a piece whose lowest-left vertex has a top edge of the subject directly below it): the upper piece is attached as a hole and vanishes"),
  "S27-c06-empty-clipping-early-return": dict(prop="C06", origin="independent sub-agent",
     change="boolean_operation: early return of the subject when the clipping operand has no polygons, regardless of the operation",
     needs="intersection with an empty MultiPolygon on the right-hand side"),
